@@ -5191,7 +5191,11 @@ class PyCdlib:
 
             (udf_name, udf_parent) = self._udf_name_and_parent_from_path(udf_path_bytes)
 
-            num_extents_to_remove = udf_parent.remove_file_ident_desc_by_name(udf_name,
+            # Look the name up the way every other UDF path lookup does (the
+            # stored identifier is Latin-1 or UCS-2, not UTF-8).
+            udf_ident = udf_parent.find_file_ident_desc_by_name(udf_name)
+
+            num_extents_to_remove = udf_parent.remove_file_ident_desc_by_name(udf_ident.fi,
                                                                               self.logical_block_size)
             # Remove space (if necessary) in the parent File Identifier
             # Descriptor area.
